@@ -19,6 +19,7 @@ import Compress.Proofs.Bzip2RoundTrip
 import Compress.Proofs.Bzip2Cut
 import Compress.Bzip2.Impl
 import Compress.Proofs.BzImplMain
+import Compress.Proofs.BzImplCut
 
 namespace Compress.Props.C03
 open Compress Compress.Bzip2 Compress.Proofs.Bzip2Stages
@@ -91,7 +92,8 @@ open Compress.Proofs.BzImpl in
     word as soon as it is determined ("corrupted"), the reference only after the longest code
     length, so if the input ends in between the reference says "unexpected EOF"
     (`ErrRel.early`); never the other way round, and never on an input the reference accepts or
-    calls deprecated.  Progress: a Read with a non-empty buffer delivers a byte or the error. -/
+    calls deprecated, and never on a cut of an accepted stream (`C03_cut_model`).  Progress: a Read
+    with a non-empty buffer delivers a byte or the error. -/
 theorem C03_refines_spec (bytes : List UInt8) (sched : List Nat) :
     let r := Bzip2.Impl.run bytes sched
     let s := Bzip2.decode bytes
@@ -147,29 +149,34 @@ theorem C03_schedule_independent (bytes : List UInt8) (s1 s2 : List Nat) :
       (Bzip2.Impl.run bytes s1).delivered = (Bzip2.Impl.run bytes s2).delivered ∧ e1 = e2) :=
   schedule_independent (tablesAgree_of_degenerate tables_agree_degenerate) bytes s1 s2
 
-open Compress.Proofs.BzImpl Compress.Proofs.Bzip2Cut in
-/-- **cut streams.** On any cut of an accepted input the reader model delivers only a prefix of
-    the full output and never reports deprecated; it reports `io.EOF` only where the cut is the end
-    of one of the concatenated streams.  (Not excluded by this theorem: "corrupted" instead of
-    "unexpected EOF" on such a cut - that would need `ErrRel.early` to be impossible on cuts of
-    accepted streams, which holds because an unassigned code word cannot be a prefix of an accepted
-    stream's code word, but is not proved here; the bzr/bz families compare the class on cuts.) -/
+open Compress.Proofs.BzImpl in
+/-- **cut streams: prefix and class (C09/C12 for bzip2.Reader).** On any cut of an accepted input,
+    under every Read schedule, the reader model delivers only a prefix of the full output, and the
+    only errors it can return are `io.ErrUnexpectedEOF` - or `io.EOF` where the cut is the end of
+    one of the concatenated streams; never corrupted, never deprecated.  (The early rejection of
+    an unassigned code word, `ErrRel.early`, cannot happen on a cut of an accepted stream: the
+    model is prefix-monotone - a "corrupted" or "deprecated" behaviour survives every extension of
+    the input, `beh_ext` - and the full input ends with io.EOF.) -/
 theorem C03_cut_model (bytes : List UInt8) (out : Array UInt8)
     (h : Bzip2.decode bytes = { out := out, verdict := .ok }) (k : Nat) (hk : k < bytes.length)
     (sched : List Nat) :
     (Bzip2.Impl.run (bytes.take k) sched).delivered <+: out.toList ∧
-    (Bzip2.Impl.run (bytes.take k) sched).err ≠ some .deprecated ∧
-    ((Bzip2.Impl.run (bytes.take k) sched).err = some .eof →
-      0 < k ∧ ∃ out2, Bzip2.decode (bytes.drop k) = { out := out2, verdict := .ok }) := by
-  have hr := refines_of_tables (tablesAgree_of_degenerate tables_agree_degenerate) (bytes.take k) sched
-  obtain ⟨hp, hv⟩ := decode_cut bytes out h k hk
-  refine ⟨hr.pref.trans hp, fun hd => ?_, fun he => ?_⟩
-  · have := hr.deprecated_sound hd
-    rcases hv with hv | ⟨hv, _⟩ <;> rw [hv] at this <;> cases this
-  · have := hr.eof_sound he
-    rcases hv with hv | ⟨_, h0, h2⟩
-    · rw [hv] at this; cases this
-    · exact ⟨h0, h2⟩
+    ∀ e, (Bzip2.Impl.run (bytes.take k) sched).err = some e →
+      e = .unexpectedEOF ∨
+      (e = .eof ∧ 0 < k ∧ ∃ out2, Bzip2.decode (bytes.drop k) = { out := out2, verdict := .ok }) :=
+  cut_class bytes out h k hk sched
+
+open Compress.Proofs.BzImpl in
+/-- **the model is prefix-monotone.** If the behaviour of the reader model on an input (all the
+    bytes it will ever deliver, then the final error) ends with corrupted or deprecated, then it is
+    the same on every extension of the input by whole bytes: what follows a rejected stream cannot
+    repair it, nor change the bytes delivered before the rejection. -/
+theorem C03_reject_stable (bytes ext : List UInt8)
+    (h : (beh (Bzip2.Impl.init (Bits.ofBytesMSB bytes))).2 = .corrupted ∨
+         (beh (Bzip2.Impl.init (Bits.ofBytesMSB bytes))).2 = .deprecated) :
+    beh (Bzip2.Impl.init (Bits.ofBytesMSB (bytes ++ ext))) = beh (Bzip2.Impl.init (Bits.ofBytesMSB bytes)) := by
+  rw [ofBytesMSB_append']
+  exact beh_ext _ _ (by rw [Compress.Proofs.BzRT.ofBytesMSB_length]; omega) h
 
 /-- non-vacuity: the reader model on a tiny complete stream ("BZh9" + end magic + zero CRC) ends
     with io.EOF after no data, on "BZ0" with deprecated. -/
